@@ -439,7 +439,7 @@ async fn run_one(i: usize, rec: Value) -> Value {
     let mut out = json!({"i": i, "offer": rec["offer"], "prev": rec["prev"], "cfg": cfg, "accepted": false, "answer": {"secs": [], "bundle": []},
                          "roundtrip_ok": true, "render_ok": true});
     let mut version = 2;
-    if cfg["neg"] == "subsequent" {
+    if cfg["neg"] == "subsequent" || cfg["neg"] == "grow" {
         let text = render(&rec["prev"], mode, version);
         version += 1;
         match answer_to(&pc, &text, &mut rts, "previous").await {
